@@ -62,6 +62,34 @@ def firstAcceptable (T : PTables) (input : List Nat) (s : Nat) (tok : Nat × Nat
   let window := (lookAheads input tok ntok).take (firstEOF input tok ntok + 1)
   (window.findIdx? fun t => (T.act s t.2).isSome).map fun j => (j, lookAhead input tok ntok j)
 
+/-! ### one call of `Error` -/
+
+/-- Specification of `Error`: called in parser state `ps` it returns `(recovered, errTok)` and
+    leaves the parser in state `ps'`.  (The relation is functional: `RecoverSpec.unique` in
+    Proofs/Recover.lean.) -/
+def RecoverSpec (T : PTables) (errTerm : Nat) (input : List Nat) (ps : PState)
+    (recovered : Bool) (errTok : Nat × Nat) (ps' : PState) : Prop :=
+  -- the reported error token is the look-ahead; the call log is not touched
+  errTok = ps.next ∧ ps'.log = ps.log ∧ ps'.calls = ps.calls ∧
+  match topRecovery T ps.states with
+  | none =>
+    -- no state on the stack can recover: nothing is popped, no token is consumed
+    recovered = false ∧ ps'.states = ps.states ∧ ps'.attrs = ps.attrs ∧ ps'.next = ps.next ∧
+      ps'.ntok = ps.ntok
+  | some k =>
+    -- `k` entries are discarded, `r` is the topmost state that can recover, it shifts `error`
+    ∃ r rest s', ps.states.drop k = r :: rest ∧ T.act r errTerm = some (.shift s') ∧
+      ps'.states = s' :: ps.states.drop k ∧
+      -- error attribute: offending token, discarded attributes oldest first, expected tokens
+      ps'.attrs = Attr.err ps.next.1 ps.next.2 (ps.attrs.take k).reverse (T.rowExpected r) ::
+        ps.attrs.drop k ∧
+      -- input is skipped up to the first acceptable token, or to the end
+      match firstAcceptable T input s' ps.next ps.ntok with
+      | some (j, t) => recovered = true ∧ ps'.next = t ∧ ps'.ntok = ps.ntok + j
+      | none => recovered = false ∧
+          ps'.next = lookAhead input ps.next ps.ntok (firstEOF input ps.next ps.ntok) ∧
+          ps'.ntok = ps.ntok + firstEOF input ps.next ps.ntok
+
 /-! ### tokens inside attributes -/
 
 mutual
